@@ -16,10 +16,13 @@ int main(int argc, char **argv)
 	size_t bs = strtoul(argv[2], NULL, 10);
 	const char *hex = argv[3];
 	size_t n = strlen(hex) / 2;
-	unsigned char *buf = calloc(1, 96 + n + 1);
+	/* 16 KiB of image behind the record: a reader that believes a larger size in the header finds bytes to read */
+	size_t tail = 16384;
+	unsigned char *buf = calloc(1, 96 + n + tail + 1);
+	memset(buf + 96 + n, 0xAA, tail);
 	for (size_t i = 0; i < n; ++i) { unsigned v; sscanf(hex + 2 * i, "%2x", &v); buf[96 + i] = (unsigned char)v; }
 	FILE *f = fopen(argv[4], "wb");
-	if (!f || fwrite(buf, 1, 96 + n, f) != 96 + n) return 2;
+	if (!f || fwrite(buf, 1, 96 + n + tail, f) != 96 + n + tail) return 2;
 	fclose(f);
 	free(buf);
 	sqfs_file_t *file = NULL;
